@@ -285,7 +285,18 @@ func evalC03Slow(c c04Slow) *Failure {
 	return nil
 }
 
+// evalC03TCP: a real TCP client pipelines requests with large replies and QUIT (or a partial request and a half-close)
+// and reads late: every reply arrives complete, in order (the c11 scenario, judged for "exactly one reply per request").
+func evalC03TCP(c c11TCP) *Failure {
+	f := evalC11TCP(c)
+	if f == nil || strings.HasPrefix(f.Key, "harness|") {
+		return f
+	}
+	return failf("c03|reply-count|tcp", "%s", f.Detail)
+}
+
 func init() {
+	register("c03.tcp", evalC03TCP)
 	register("c03.idle", evalC03Idle)
 	register("c03.volume", evalC03Volume)
 	register("c03.slow", evalC03Slow)
@@ -346,6 +357,11 @@ func TestC03(t *testing.T) {
 		for _, c := range []c03Volume{{N: 36, ArgLen: 32 << 20}, {N: 3000, ArgLen: 100}} {
 			h.Col.Case(true, []byte(fmt.Sprint("volume", c)), "connection-volume")
 			h.Report("c03.volume", c, evalC03Volume(c))
+		}
+		// real TCP through the accept loop: megabytes of replies read late, the pipeline ends with QUIT / with a half-close
+		for _, c := range []c11TCP{{N: 16, ReplyLen: 1 << 20, DelayMS: 300, Quit: true}, {N: 16, ReplyLen: 1 << 20, DelayMS: 300}} {
+			h.Col.Case(true, []byte(fmt.Sprint("tcp", c)), "tcp-late-reader")
+			h.Report("c03.tcp", c, evalC03TCP(c))
 		}
 		// a peer's request while another connection reads its reply late
 		for _, c := range []c04Slow{{Handler: "example", Stream: []resp.Value{resp.Cmd("PING")}, Peer: [][]string{{"PING"}, {"ECHO", "x"}}},
